@@ -17,11 +17,12 @@
 //!   programs of length <= 1: the prelude is the same for every program.)
 //! * EMPTY: the empty script (special-cased by the VM).
 //! * LIMIT: a LOG loop (log; subi; jnzb) producing N receipts, N in 65,531..=65,534
-//!   (thorough: 65,530..=65,535, two worlds), followed by every terminal sequence of
-//!   length <= 1 (thorough 2) over {ret, rvrt, invalid, log, call A, retd, store panic,
-//!   tr}, run with the full gas limit; out-of-gas as terminal: the programs with
-//!   terminal [log] (thorough: every terminal sequence of length <= 1) are also run with
-//!   the gas limits that stop execution at each of the last 3 (thorough 6) instructions.
+//!   (thorough: 65,530..=65,535), followed by every terminal sequence of length <= 1
+//!   (thorough: 2 in world 0, 1 in world 1) over {ret, rvrt, invalid, log, call A, retd,
+//!   store panic, tr}, run with the full gas limit; out-of-gas as terminal: the
+//!   programs with terminal [log] (thorough: every terminal sequence of length <= 1 in
+//!   world 0) are also run with the gas limits that stop execution at each of the last
+//!   3 (thorough 6) instructions.
 //!
 //! Every (world, program, gas limit) is executed three times: step by step
 //! (`vmkit::step`, fresh VM), end to end with `Interpreter::transact` (fresh VM) and
@@ -1013,20 +1014,26 @@ fn explore(ctx: &Ctx) {
         let ns: Vec<u32> = ctx.pick((65_531..=65_534).collect(), (65_530..=65_535).collect());
         let tk = ctx.pick(1u32, 2u32);
         let lim_worlds: Vec<usize> = ctx.pick(vec![0], vec![0, 1]);
-        let nt = space::seq_count(term.len() as u64, tk);
-        let total = ns.len() as u64 * nt * lim_worlds.len() as u64;
+        // explicit list of (world, log count, terminal sequence); the first world gets
+        // terminal sequences up to length tk, the others up to length 1
+        let mut progs: Vec<(usize, u32, Vec<u64>)> = Vec::new();
+        for ti in 0..space::seq_count(term.len() as u64, tk) {
+            let t = space::seq_at(term.len() as u64, tk, ti);
+            for n in &ns {
+                for (p, wix) in lim_worlds.iter().enumerate() {
+                    if p == 0 || t.len() <= 1 {
+                        progs.push((*wix, *n, t.clone()));
+                    }
+                }
+            }
+        }
+        let total = progs.len() as u64;
         // out-of-gas as terminal: the gas limits that end execution at each of the last
         // `fault_tail` instructions; quick: only after the terminal [log], thorough:
-        // after every terminal sequence of length <= 1
+        // after every terminal sequence of length <= 1 (first world)
         let fault_tail = ctx.pick(3usize, 6usize);
-        let decode = |i: u64| {
-            let wix = lim_worlds[(i % lim_worlds.len() as u64) as usize];
-            let j = i / lim_worlds.len() as u64;
-            let n = ns[(j % ns.len() as u64) as usize];
-            let t = space::seq_at(term.len() as u64, tk, j / ns.len() as u64);
-            (wix, n, t)
-        };
-        let wants_faults = |t: &[u64]| if ctx.quick() { t == [3] } else { t.len() <= 1 };
+        let decode = |i: u64| progs[i as usize].clone();
+        let wants_faults = |wix: usize, t: &[u64]| if ctx.quick() { t == [3] } else { wix == lim_worlds[0] && t.len() <= 1 };
         let mut skipped = 0u64;
         let mut oog_cases: Vec<(u64, u64)> = Vec::new();
         space::par_chunks(
@@ -1054,7 +1061,7 @@ fn explore(ctx: &Ctx) {
                     &|g| json!({"kind": "limit", "world": wix, "n": n, "term": t, "names": names, "gas": g}),
                     acc,
                 );
-                if wants_faults(&t) {
+                if wants_faults(wix, &t) {
                     cases.extend(limits.into_iter().map(|g| (i, g)));
                 }
                 if n == 65_533 && t.len() <= 1 && ctx.want_sample() && (t.is_empty() || t[0] == 4) {
@@ -1103,7 +1110,7 @@ fn explore(ctx: &Ctx) {
         );
         ctx.set("limit_programs", json!({"log_counts": ns, "terminal_len": tk, "worlds": lim_worlds, "programs": total,
             "run": tot.programs - seq_programs, "out_of_gas_runs": oog_cases.len(),
-            "fault_points": format!("gas limits ending at each of the last {fault_tail} instructions of {}", if ctx.quick() { "the programs with terminal [log]" } else { "the programs with a terminal sequence of length <= 1" })}));
+            "fault_points": format!("gas limits ending at each of the last {fault_tail} instructions of {}", if ctx.quick() { "the programs with terminal [log]" } else { "the programs of the first world with a terminal sequence of length <= 1" })}));
         if skipped > 0 {
             ctx.cap(format!("time budget: {skipped} receipt-limit runs not executed"));
         }
